@@ -53,6 +53,7 @@ ValOf(l) == (CHOOSE p \in S.LV : p[1] = l)[2]
 
 Do(s) ==
   CASE s.op = "reset" -> cfg' = s.cfg /\ S' = Start(s.cfg) /\ ev' = s
+    [] s.op = "panic" -> FALSE /\ UNCHANGED vars        \* the code under test panicked: never allowed
     (* ===== evmax ===== *)
     [] s.op = "round" -> /\ cfg.kind = "evmax" /\ RoundOK(s) /\ UNCHANGED cfg /\ S' = [S EXCEPT !.rounds = 1 - @] /\ ev' = s
     (* ===== evchurn ===== *)
